@@ -63,6 +63,8 @@ def live(v):
         return getattr(G, g["cls"])(**{k: live(x) for k, x in g.get("kw", {}).items()})
     if isinstance(v, dict) and set(v) == {"dict"}:
         return dict(v["dict"])
+    if isinstance(v, dict) and set(v) == {"items"}:
+        return items_dict(v["items"])
     return v
 
 
@@ -73,6 +75,43 @@ def live_hyper(h):
 def D(d):
     """a parameter dictionary inside a spec (distinguished from the tagged dicts above)"""
     return None if d is None else {"dict": dict(d)}
+
+
+def O(items):
+    """a parameter dictionary whose KEY ORDER is part of the case: a list of (key, value) pairs (survives any JSON route)"""
+    return None if items is None else {"items": [[k, v] for k, v in items]}
+
+
+def items_dict(items):
+    """list of (key, value) pairs -> dict with the keys inserted in that order"""
+    if items is None:
+        return None
+    out = {}
+    for k, v in items:
+        out[k] = v
+    return out
+
+
+def closed_form_kernel(name, params, X):
+    """the kernels with several parameters, from their definition in the scikit-learn user guide (defaults: gamma = 1 /
+    n_features, degree = 3, coef0 = 1); None for the kernels not written out here"""
+    X = np.asarray(X, float)
+    p = dict(params or {})
+    G = X @ X.T
+    gamma = p.get("gamma")
+    gamma = 1.0 / X.shape[1] if gamma is None else gamma
+    if name in ("poly", "polynomial"):
+        return (gamma * G + p.get("coef0", 1)) ** p.get("degree", 3)
+    if name == "sigmoid":
+        return np.tanh(gamma * G + p.get("coef0", 1))
+    if name == "rbf":
+        sq = np.maximum(np.diag(G)[:, None] + np.diag(G)[None, :] - 2 * G, 0)
+        return np.exp(-gamma * sq)
+    if name == "laplacian":
+        return np.exp(-gamma * np.abs(X[:, None, :] - X[None, :, :]).sum(-1))
+    if name == "linear":
+        return G
+    return None
 
 
 def make(name, hyper):
